@@ -14,7 +14,7 @@ for f in sorted(glob.glob(os.path.join(ROOT, "NOTES", "C*.md"))):
     body = re.sub(r"^(#{1,4}) ", lambda m: "#" * min(6, len(m.group(1)) + 2) + " ", body, flags=re.M)
     out.append("\n### %s — as built\n\n%s\n" % (pid, body))
 out.append("\n## 10. Seeded breaking changes and which checks catch them\n\nEvery change below was written by a fresh sub-agent that saw only the property text and a scratch worktree, was confirmed by the coordinator (compiles, the repository's tests still pass, the demonstration fails with it and passes without it), and was then applied to /repo, checked and reverted (`tools/seed_test.sh`).\n\n| seed | property | what it breaks (short) | needs to manifest | result of `./check <ID> --tier quick` |\n|---|---|---|---|---|\n")
-for d in sorted(glob.glob(os.path.join(ROOT, "seeded", "*"))):
+for d in sorted(p for p in glob.glob(os.path.join(ROOT, "seeded", "*")) if os.path.isdir(p)):
     m = json.load(open(os.path.join(d, "meta.json")))
     cut = lambda t, n: (t or "").replace("\n", " ").replace("|", "/")[:n]
     out.append("| %s | %s | %s | %s | %s |\n" % (os.path.basename(d), m.get("property"), cut(m.get("breaks"), 260), cut(m.get("needs_to_manifest"), 220), cut(m.get("detected_by") if isinstance(m.get("detected_by"), str) else json.dumps(m.get("detected_by")), 300)))
